@@ -29,7 +29,7 @@ ASSUMPTIONS = [
 def BOUNDS(tier):
     return {'yaml_alphabet': values.YAML_ALPHA, 'yaml_maxlen': 2 if tier == 'quick' else 3,
             'num_alphabet': values.NUM_ALPHA, 'num_maxlen': 3 if tier == 'quick' else 4,
-            'fixed_strings': len(dumpcat.fixed_strings()), 'positions': list(dumpcat.STRING_POSITIONS),
+            'fixed_strings': len(dumpcat.fixed_strings()), 'number_shapes': len(values.number_shapes()), 'positions': list(dumpcat.STRING_POSITIONS),
             'structured_families': len(dumpcat.structured_families())}
 
 
@@ -43,6 +43,7 @@ def units(tier):
         for a in values.NUM_ALPHA:
             out.append(('str', pos, 'num', a))
         out.append(('str', pos, 'short', ''))
+        out.append(('str', pos, 'shapes', ''))
     for i in range(len(dumpcat.structured_families())):
         out.append(('fam', i))
     return out
@@ -94,6 +95,8 @@ def run_unit(unit, tier):
             strs = dumpcat.fixed_strings()
         elif alpha == 'short':
             strs = ['']
+        elif alpha == 'shapes':
+            strs = values.number_shapes()
         else:
             A = values.YAML_ALPHA if alpha == 'yaml' else values.NUM_ALPHA
             L = b['yaml_maxlen'] if alpha == 'yaml' else b['num_maxlen']
